@@ -20,7 +20,8 @@ A == <<65>>  AB == <<65, 66>>  ASB == <<65, 32, 66>>
 
 GPos == { Ins("Td", <<N(3), N(0)>>), Ins("Td", <<N(0), N(-2)>>), Ins("TD", <<N(1), N(-3)>>),
           Ins("Tm", <<N(1), N(0), N(0), N(1), N(5), N(5)>>), Ins("Tm", <<N(2), N(0), N(0), N(2), N(0), N(0)>>),
-          <<Op("T*")>>, Ins("TL", <<N(4)>>), Ins("Tj", <<Str(AB)>>), Ins("'", <<Str(A)>>) }
+          <<Op("T*")>>, Ins("TL", <<N(4)>>), Ins("Tj", <<Str(AB)>>), Ins("'", <<Str(A)>>),
+          Ins("Td", <<N(0), N(0)>>), Ins("TD", <<N(0), N(0)>>) }
 GSpace == { Ins("Tc", <<N(1)>>), Ins("Tc", <<N(3)>>), Ins("Tw", <<N(2)>>), Ins("Tz", <<N(200)>>), Ins("Tz", <<N(50)>>),
             Ins("Ts", <<N(2)>>), Ins("Tj", <<Str(ASB)>>), Ins("TJ", <<Arr(<<Str(A), N(-100), Str(AB)>>)>>),
             Ins("TJ", <<Arr(<<N(-200), Str(A)>>)>>), Ins("\"", <<N(2), N(1), Str(AB)>>),
